@@ -38,18 +38,9 @@ type MaprRun struct {
 
 var hostnameMu sync.Mutex
 
-// RunMapr drives the real server-side aggregators and the real client-side aggregation without transport.
-func RunMapr(queryStr string, parts []ServerPart, timeout time.Duration) (*MaprRun, error) {
-	q, err := mapr.NewQuery(queryStr)
-	if err != nil {
-		return nil, fmt.Errorf("client NewQuery: %w", err)
-	}
-	if q.Outfile == nil {
-		return nil, errors.New("query needs an outfile")
-	}
-	os.Remove(q.Outfile.FilePath)
-	os.Remove(q.Outfile.FilePath + ".tmp")
-	global := mapr.NewGlobalGroupSet()
+// MaprMessages runs the real server-side aggregators over parts and returns, per server, the aggregate
+// messages it transmitted (and how many partial transmissions it honoured).
+func MaprMessages(queryStr string, parts []ServerPart, timeout time.Duration) ([][]string, []int, error) {
 	ctx, cancel := context.WithTimeout(context.Background(), timeout)
 	defer cancel()
 
@@ -68,7 +59,7 @@ func RunMapr(queryStr string, parts []ServerPart, timeout time.Duration) (*MaprR
 		if err != nil {
 			os.Setenv("DTAIL_HOSTNAME_OVERRIDE", old)
 			hostnameMu.Unlock()
-			return nil, fmt.Errorf("server NewAggregate: %w", err)
+			return nil, nil, fmt.Errorf("server NewAggregate: %w", err)
 		}
 		srvs[i] = &srv{agg: agg, part: p}
 	}
@@ -124,19 +115,43 @@ func RunMapr(queryStr string, parts []ServerPart, timeout time.Duration) (*MaprR
 	wg.Wait()
 	select {
 	case e := <-errs:
-		return nil, e
+		return nil, nil, e
 	default:
 	}
+	msgs := make([][]string, len(srvs))
+	npar := make([]int, len(srvs))
+	for i, s := range srvs {
+		msgs[i], npar[i] = s.msgs, s.npar
+	}
+	return msgs, npar, nil
+}
+
+// RunMapr drives the real server-side aggregators and the real client-side aggregation without transport.
+func RunMapr(queryStr string, parts []ServerPart, timeout time.Duration) (*MaprRun, error) {
+	q, err := mapr.NewQuery(queryStr)
+	if err != nil {
+		return nil, fmt.Errorf("client NewQuery: %w", err)
+	}
+	if q.Outfile == nil {
+		return nil, errors.New("query needs an outfile")
+	}
+	os.Remove(q.Outfile.FilePath)
+	os.Remove(q.Outfile.FilePath + ".tmp")
+	global := mapr.NewGlobalGroupSet()
+	msgs, npar, err := MaprMessages(queryStr, parts, timeout)
+	if err != nil {
+		return nil, err
+	}
 	run := &MaprRun{}
-	for _, s := range srvs {
-		ca := maprclient.NewAggregate(s.part.Host, q, global)
-		for _, m := range s.msgs {
+	for i := range parts {
+		ca := maprclient.NewAggregate(parts[i].Host, q, global)
+		for _, m := range msgs[i] {
 			if err := ca.Aggregate(m); err != nil {
 				run.ClientErrors++ // the client handler logs the error and carries on
 			}
 			run.Messages++
 		}
-		run.Partials += s.npar
+		run.Partials += npar[i]
 	}
 	if err := global.WriteResult(q, true); err != nil {
 		return nil, fmt.Errorf("WriteResult: %w", err)
